@@ -2,9 +2,6 @@ use std::collections::HashSet;
 use std::hash::Hash;
 use std::path::PathBuf;
 
-use crate::check::context::clss::generic::GenericClass;
-use crate::check::context::field::generic::GenericField;
-use crate::check::context::function::generic::GenericFunction;
 use crate::check::context::python::python_files;
 use crate::check::context::Context;
 use crate::check::result::TypeResult;
